@@ -33,6 +33,8 @@ func main() {
 		cmdVC(os.Args[2:])
 	case "check":
 		cmdCheck(os.Args[2:])
+	case "matrix":
+		cmdMatrix(os.Args[2:])
 	case "replay":
 		cmdReplay(os.Args[2:])
 	case "refgen":
@@ -111,6 +113,7 @@ func (p *Program) generate(only string) []*Obligation {
 			continue
 		}
 		ex := p.newExec(f.fn, fc)
+		ex.ghostFn = f.verifOnly
 		ex.run()
 		obls = append(obls, ex.obls...)
 	}
